@@ -16,11 +16,12 @@
 (* inside a script inside a transaction after a USE ...).                     *)
 (*                                                                            *)
 (*   tab[s]            committed contents of table s.T  (s in {"S1","S2"})    *)
-(*   u                 schemas in which the (empty) table U exists, committed *)
+(*   u[s]              the (empty) table s.U, committed: 0 absent, 1 made by  *)
+(*                     c1 (one column), 2 made by c2 (two columns)            *)
 (*   s[c].sc           current schema of connection c                         *)
 (*   s[c].var          value of the session variable N of c (0: not set)      *)
 (*   s[c].tx, add, del open transaction and its pending work per table        *)
-(*   s[c].uadd, udel   pending creations / drops of U                         *)
+(*   s[c].upd          pending creations / drops of U (3: nothing pending)    *)
 (*   s[c].open, rows   the connection's result cursor: holds a result, and    *)
 (*                     the rows of it that have not been handed out yet       *)
 (*                                                                            *)
@@ -41,12 +42,17 @@ Schemas == {"S1", "S2"}
 OwnVals(c) == IF c = "c1" THEN {1, 2} ELSE {3, 4}
 Other(c) == CHOOSE d \in Conn : d # c
 Empty2 == [x \in Schemas |-> {}]
-Idle(sc, var, open, rows) == [sc |-> sc, var |-> var, tx |-> FALSE, add |-> Empty2, del |-> Empty2, uadd |-> {}, udel |-> {},
+NoU == [x \in Schemas |-> 0]
+NoPend == [x \in Schemas |-> 3]
+WidthBy(c) == IF c = "c1" THEN 1 ELSE 2
+Idle(sc, var, open, rows) == [sc |-> sc, var |-> var, tx |-> FALSE, add |-> Empty2, del |-> Empty2, upd |-> NoPend,
                               open |-> open, rows |-> rows]
-InitSt == [tab |-> Empty2, u |-> {}, s |-> [c \in Conn |-> Idle("S1", 0, FALSE, <<>>)]]
+InitSt == [tab |-> Empty2, u |-> NoU, s |-> [c \in Conn |-> Idle("S1", 0, FALSE, <<>>)]]
 
 Visible(st, c, t) == (st.tab[t] \ st.s[c].del[t]) \cup st.s[c].add[t]
-VisibleU(st, c) == (st.u \ st.s[c].udel) \cup st.s[c].uadd
+VisU(st, c) == [t \in Schemas |-> IF st.s[c].upd[t] = 3 THEN st.u[t] ELSE st.s[c].upd[t]]
+VisibleU(st, c) == {t \in Schemas : VisU(st, c)[t] # 0}
+ShapeStr(t, w) == CASE t = "S1" /\ w = 1 -> "S1:1" [] t = "S1" -> "S1:2" [] w = 1 -> "S2:1" [] OTHER -> "S2:2"
 Sorted(S) == [j \in 1..Cardinality(S) |-> CHOOSE v \in S : Cardinality({w \in S : w < v}) = j - 1]
 SortedNames(S) == SelectSeq(<<"S1", "S2">>, LAMBDA n : n \in S)
 ConnSeq == <<"c1", "c2">>
@@ -55,8 +61,10 @@ ConnSeq == <<"c1", "c2">>
 Snap(st) == [ctx |-> [j \in 1..2 |-> <<st.s[ConnSeq[j]].sc, st.s[ConnSeq[j]].sc>>],        \* <<conn.schema, CURRENT_SCHEMA()>>
              var |-> [j \in 1..2 |-> st.s[ConnSeq[j]].var],
              vis |-> [j \in 1..2 |-> <<Sorted(Visible(st, ConnSeq[j], "S1")), Sorted(Visible(st, ConnSeq[j], "S2"))>>],
-             \* where U exists: <<by information_schema.tables, by the engine's own catalog, by querying it>> as each connection sees it
-             cat |-> [j \in 1..2 |-> LET n == SortedNames(VisibleU(st, ConnSeq[j])) IN <<n, n, n>>]]
+             \* where U exists: <<by information_schema.tables, by the engine's own catalog, by the description of SELECT * FROM s.U
+             \* (name:number of columns)>> as each connection sees it
+             cat |-> [j \in 1..2 |-> LET n == SortedNames(VisibleU(st, ConnSeq[j])) IN
+                                     <<n, n, [i \in 1..Len(n) |-> ShapeStr(n[i], VisU(st, ConnSeq[j])[n[i]])]>>]]
 Obs(res, st) == [res |-> res, got |-> <<>>, snap |-> Snap(st)]
 ObsGot(res, got, st) == [res |-> res, got |-> got, snap |-> Snap(st)]
 
@@ -71,9 +79,7 @@ SetVisible(st, c, t, V) ==
   IF st.s[c].tx THEN [st EXCEPT !.s[c].add[t] = V \ st.tab[t], !.s[c].del[t] = st.tab[t] \ V]
   ELSE [st EXCEPT !.tab[t] = V]
 Write(st, c, t, v, ins) == SetVisible(st, c, t, IF ins THEN Visible(st, c, t) \cup {v} ELSE Visible(st, c, t) \ {v})
-SetVisibleU(st, c, W) ==
-  IF st.s[c].tx THEN [st EXCEPT !.s[c].uadd = W \ st.u, !.s[c].udel = st.u \ W]
-  ELSE [st EXCEPT !.u = W]
+SetU(st, c, t, w) == IF st.s[c].tx THEN [st EXCEPT !.s[c].upd[t] = w] ELSE [st EXCEPT !.u[t] = w]
 CountStr(n) == CASE n = 0 -> "count:0" [] n = 1 -> "count:1" [] n = 2 -> "count:2" [] n = 3 -> "count:3" [] OTHER -> "count:4"
 
 Apply(st, c, a) ==
@@ -101,11 +107,11 @@ Apply(st, c, a) ==
     [] a.k = "mk" ->
          LET t == Target(st, c, a) IN
          IF t \in VisibleU(st, c) THEN (IF a.soft THEN [post |-> st, r |-> "ok"] ELSE [post |-> st, r |-> "err:exists"])
-         ELSE [post |-> SetVisibleU(st, c, VisibleU(st, c) \cup {t}), r |-> "ok"]
+         ELSE [post |-> SetU(st, c, t, WidthBy(c)), r |-> "ok"]            \* (each connection creates U with its own shape)
     [] a.k = "rm" ->
          LET t == Target(st, c, a) IN
          IF t \notin VisibleU(st, c) THEN (IF a.soft THEN [post |-> st, r |-> "ok"] ELSE [post |-> st, r |-> "err:missing"])
-         ELSE [post |-> SetVisibleU(st, c, VisibleU(st, c) \ {t}), r |-> "ok"]
+         ELSE [post |-> SetU(st, c, t, 0), r |-> "ok"]
     [] OTHER -> [post |-> st, r |-> "?"]
 
 \* ---- operations ----
@@ -115,7 +121,7 @@ Steps(st, op, D) ==
          LET s2 == [st EXCEPT !.s[op.c].tx = TRUE] IN {R(s2, Obs(<<"ok">>, s2))}
     [] op.k \in {"commit", "rollback"} ->
          LET tab2 == IF op.k = "commit" THEN [t \in Schemas |-> (st.tab[t] \ x.del[t]) \cup x.add[t]] ELSE st.tab
-             u2 == IF op.k = "commit" THEN (st.u \ x.udel) \cup x.uadd ELSE st.u
+             u2 == IF op.k = "commit" THEN VisU(st, op.c) ELSE st.u
              s2 == IF x.tx THEN [st EXCEPT !.tab = tab2, !.u = u2, !.s[op.c] = Idle(x.sc, x.var, x.open, x.rows)] ELSE st IN
          \* through the connection's API nothing is returned; as SQL: the success status (inside a transaction the
          \* status row is not constrained by C13, outside it is the standard one)
@@ -226,10 +232,10 @@ StepOk(st, op, r) ==
         \/ (~x.tx /\ (op.k \in {"ins", "del", "upd", "ins2", "delall"} \/ ScriptTouches(op, {"ins", "del", "delall"}))))
   \* ... and so does the catalog (C09: what exists is what was created and not dropped)
   /\ (r.post.u # st.u =>
-        \/ (op.k = "commit" /\ x.tx /\ r.post.u = (st.u \ x.udel) \cup x.uadd)
+        \/ (op.k = "commit" /\ x.tx /\ r.post.u = VisU(st, op.c))
         \/ (~x.tx /\ (op.k \in {"mk", "rm"} \/ ScriptTouches(op, {"mk", "rm"}))))
   /\ (op.k = "rollback" => r.post.tab = st.tab /\ r.post.u = st.u /\ ~y.tx /\ y.add = Empty2 /\ y.del = Empty2
-                                               /\ y.uadd = {} /\ y.udel = {})
+                                               /\ y.upd = NoPend)
   \* C05: an open result changes only by the connection's own query / fetch calls on that cursor; fetch calls hand out a
   \* prefix of what is left
   /\ (y.open # x.open \/ y.rows # x.rows => op.k \in {"sel", "fetch"})
